@@ -181,7 +181,8 @@ def inverse_topology(outer, update, topology, inverse=None, multi_updates=True):
                             lambda current: deep_merge(
                                 current, child_update))
                     else:
-                        assoc_path(inverse, inner, child_update)
+                        inverse = _assoc_leaf(
+                            inverse, inner, child_update, multi_updates)
 
         elif key in update:
             value = update[key]
@@ -217,8 +218,20 @@ def inverse_topology(outer, update, topology, inverse=None, multi_updates=True):
                             inner,
                             lambda current: deep_merge(current, value))
                 else:
-                    assoc_path(inverse, inner, value)
+                    inverse = _assoc_leaf(
+                        inverse, inner, value, multi_updates)
     return inverse
+
+
+def _assoc_leaf(inverse, path, value, multi_updates):
+    '''Insert a leaf update, keeping earlier updates to the same node.'''
+    if multi_updates and path:
+        return update_in(
+            inverse,
+            path[:-1],
+            lambda current: deep_merge_multi_update(
+                current, {path[-1]: value}))
+    return assoc_path(inverse, path, value)
 
 
 def normalize_path(path):
